@@ -331,6 +331,58 @@ fn run(ctx: &mut Ctx) {
         }
         exercise(ctx, run, &banks, what);
     });
+    // ---- bursts: all 8 wires of a pad column fire in the same 1..3 time bins, with as many pad clusters: >= 13
+    // avalanches at one, two or three distinct drift radii (degenerate template points for the helix fit)
+    ctx.cases("bursts", ctx.tier.pick(48, 1500), |ctx, i, rng| {
+        let col = rng.usize(32);
+        let nbins = 1 + (i % 3) as usize;
+        let k0 = 20 + rng.usize(150);
+        let len = 400;
+        let mut wires: BTreeMap<usize, Vec<i16>> = BTreeMap::new();
+        let mut pads: BTreeMap<(usize, usize), Vec<i16>> = BTreeMap::new();
+        let gap = *rng.pick(&[1usize, 2, 7]);
+        let mut wsig = vec![vec![0.0f64; len]; 8];
+        for b in 0..nbins {
+            for w in 0..8 {
+                let a = 400.0 - 30.0 * w as f64 - 7.0 * b as f64;
+                for (j, r) in m.wr.iter().enumerate() {
+                    let idx = 100 + k0 + b * gap + j;
+                    if idx < len {
+                        wsig[w][idx] += a * r;
+                    }
+                }
+            }
+        }
+        for w in 0..8 {
+            let wire = (col * 8 + 8 + w) % 256;
+            wires.insert(wire, wsig[w].iter().map(|x| (3000.0 + x).round().clamp(-32768.0, 32767.0) as i16).collect());
+        }
+        let row_base = 20 + rng.usize(400);
+        let row_step = *rng.pick(&[4usize, 5, 6]);
+        for c in 0..8 {
+            let row = row_base + c * row_step;
+            for (dr, wgt) in [(-1i64, 0.5), (0, 1.0), (1, 0.45)] {
+                let mut ps = vec![0.0f64; len];
+                for b in 0..nbins {
+                    let a = (2500.0 - 150.0 * c as f64 - 11.0 * b as f64) * wgt;
+                    for (j, r) in m.pr.iter().enumerate() {
+                        let idx = 100 + k0 + b * gap + j;
+                        if idx < len {
+                            ps[idx] += a * r;
+                        }
+                    }
+                }
+                pads.insert((col, (row as i64 + dr) as usize), ps.iter().map(|x| (1725.0 + x).round().clamp(-32768.0, 32767.0) as i16).collect());
+            }
+        }
+        let mut banks: Banks = Vec::new();
+        for (w, s) in &wires {
+            banks.push(event::wire_bank(&inv, *w, s.clone()));
+        }
+        banks.extend(event::pad_banks(&inv, &pads, 1400));
+        banks.push(event::trg_bank(i as u32));
+        exercise(ctx, u32::MAX, &banks, &format!("burst in {} time bin(s)", nbins));
+    });
     ctx.cases("bank-mutations", ctx.tier.pick(16, 200), |ctx, i, rng| {
         // a small valid event: TRG + 2 wire banks + one PWB packet
         let w = rng.usize(256);
